@@ -315,6 +315,7 @@ def expected_values(rec: Dict[str, Any], d: int) -> List[Any]:
 RCFG = """CONSTANTS MaxDepth = {depth}
  MaxSegs = {segs}
  WithFilters = {filters}
+ Ext = {ext}
 INIT Init
 NEXT Next
 INVARIANT LocOK
@@ -323,10 +324,10 @@ INVARIANT Export
 """
 
 
-def random_cases(chk: Check, *, filters: bool, num: int, seed: int, jobs: int = 8, depth: int = 3, segs: int = 3) -> List[Dict[str, Any]]:
+def random_cases(chk: Check, *, filters: bool, num: int, seed: int, jobs: int = 8, depth: int = 3, segs: int = 3, ext: bool = False) -> List[Dict[str, Any]]:
     from .core import tlc_parallel
 
-    js = [("MC_PathRandom", RCFG.format(depth=depth, segs=segs, filters="TRUE" if filters else "FALSE"),
+    js = [("MC_PathRandom", RCFG.format(depth=depth, segs=segs, filters="TRUE" if filters else "FALSE", ext="TRUE" if ext else "FALSE"),
            dict(simulate=(num // jobs, segs + 3), seed=seed * 1000 + k, workers=1, timeout=3000)) for k in range(jobs)]
     out: List[Dict[str, Any]] = []
     seen = set()
